@@ -44,6 +44,10 @@ def big_buffer_cases(tier):
     buffer size in EXAMPLES, however the work is packaged. The consumer pauses, so the pipeline runs as far ahead as it
     will."""
     out = []
+    for inp in ('list', 'tuple'):
+        for w, b in ((2, 2), (3, 4)):
+            out.append({'kind': 'lpm', 'n': 40, 'workers': w, 'buffer': b, 'input_as': inp, 'pauses': [0, 1, 5],
+                        'sched': {'mode': 'list', 'choices': []}})
     for kind, w, b in (('pf', 2, 64), ('pf', 2, 128), ('pf', 3, 100), ('pm', 2, 64), ('lpm', 2, 70), ('pf', 1, 40),
                        ('stp', 1, 33)):
         n = 3 * b + 5 if tier == 'quick' else 5 * b + 7
